@@ -112,6 +112,11 @@ impl Subscription {
         self.observer.deleted()
     }
 
+    /// Whether the subscription is being (or has been) deleted.
+    pub fn is_deleting(&self) -> bool {
+        self.observer.is_deleting()
+    }
+
     /// Returns the info for the subscription.
     pub async fn get_info(&self) -> Result<SubscriptionInfo, GetInfoError> {
         let (responder, recv) = oneshot::channel();
